@@ -41,19 +41,26 @@ def run_on(pid, repo):
 def run(ck, pid):
     mdir = os.path.join(VERIF, 'selftest', pid)
     specs = sorted(glob.glob(os.path.join(mdir, '*.json')))
-    if not specs:
-        ck.note('no stored mutants for %s' % pid)
-        return
     try:
         known = {k['key'] for k in json.load(open(report.KNOWN)) if k.get('property') == pid and k.get('status') == 'known'}
     except (OSError, ValueError):
         known = set()
     applied = skipped = 0
     results = []
+    items = []
     for sp in specs:
-        spec = json.load(open(sp))
-        patch = sp[:-5] + '.patch'
-        name = os.path.basename(sp)[:-5]
+        items.append((json.load(open(sp)), sp[:-5] + '.patch', os.path.basename(sp)[:-5]))
+    # the seeded changes written by independent sub-agents for this property are replayed as well: the
+    # targeted property must keep reporting them (expected fragment = the rule id that caught them when stored)
+    for md in sorted(glob.glob(os.path.join(VERIF, 'seeded', pid + '-*', 'meta.json'))):
+        meta = json.load(open(md))
+        keys = meta.get('caught_by', {}).get(pid) or []
+        keys = [k for k in keys if '<floor>' not in k and not k.startswith(('engine', 'anchor'))]
+        if not keys:
+            continue
+        items.append(({'what': 'seeded change ' + meta['seed'], 'expect': keys[0].split(':')[0] + ':'},
+                      os.path.join(os.path.dirname(md), 'patch.diff'), 'seed-' + meta['seed']))
+    for spec, patch, name in items:
         d = scratch_copy(core.REPO)
         try:
             p = subprocess.run(['patch', '-p1', '--fuzz=3', '-s', '-i', patch], cwd=d, stdout=subprocess.PIPE, stderr=subprocess.STDOUT, text=True)
@@ -79,4 +86,4 @@ def run(ck, pid):
                   verdict='discharged' if ok else 'inconclusive')
         finally:
             shutil.rmtree(d, ignore_errors=True)
-    ck.meta['selftest'] = {'mutants': len(specs), 'applied': applied, 'skipped': skipped, 'results': results}
+    ck.meta['selftest'] = {'mutants': len(items), 'applied': applied, 'skipped': skipped, 'results': results}
